@@ -852,6 +852,16 @@ def _c10(pid, tier, log):
                 timing.append(Probe(nm + "-timing", fill(template("c10_eq_other.rs"), NAME=nm + "-timing", T=t, RHS=rhs, EXPR=expr), "neg",
                                     {"E0369", "E0277", "E0308"}, "`%s` with a: %s, s: %s must be rejected also with %s" % (expr, t, rhs, TIMING_FEATURE),
                                     twins=["c10-eq-" + s + "-timing"], meta={"family": "eq-text-timing"}))
+        # no implicit view or conversion to plain text
+        for tag, stmt in (("asref-str", "let _v: &str = a.as_ref();"), ("asref-bytes", "let _v: &[u8] = a.as_ref();"),
+                          ("borrow-str", "let _v: &str = std::borrow::Borrow::<str>::borrow(&a);"), ("deref", "let _v: &str = &*a;"),
+                          ("into-string", "let _v: String = a.into();"), ("as_str", "let _v = a.as_str();"),
+                          ("as_bytes", "let _v = a.as_bytes();"), ("len", "let _v = a.len();")):
+            nm = "c10-conv-%s-%s" % (tag, s)
+            default.append(Probe(nm, fill(template("c10_conv.rs"), NAME=nm, T=t, STMT=stmt), "neg",
+                                 {"E0277", "E0599", "E0614", "E0308", "E0282", "E0283"},
+                                 "`%s` with a: %s must be rejected (the text is reachable only through secret())" % (stmt, t),
+                                 twins=["c10-accessor-" + s], meta={"family": "conv"}))
         if tier == "thorough":
             # Display stays unavailable under the feature as well
             timing.append(Probe("c10-display-" + s + "-timing",
